@@ -131,7 +131,8 @@ CHECKS = {
         design_ref="DESIGN.md §5 C07, §11.3", category="proof",
         note="partial: update_base_authority, copy_scheme and set_protocol_as_file are exercised through the public API only "
              "(append_base_*, consume_prepared_path and clear_pathname are modelled, proved to commute with the layout and "
-             "called directly in the L1 run); the setter layer above the editors is modelled separately (Guard, "
+             "called directly in the L1 run; url_aggregator's host setters are modelled on top of the editors and run "
+             "against the real calls, their proof is not finished); the setter layer above the editors is modelled separately (Guard, "
              "C03/C09); copy-independence (std::string aliasing) is a runtime fact outside the model."),
     "C09": dict(
         technique="Lean 4: decide over the parser-exit table regenerated from src/parser.cpp + guard-model theorems; "
